@@ -111,7 +111,12 @@ def fp(o, ident=True, _depth=0):
     if o is None or isinstance(o, (bool, int, float, complex, str, bytes)):
         return (type(o).__name__, repr(o))
     if isinstance(o, dict):
-        return ('dict', tuple(sorted(((fp(k, ident, _depth + 1), fp(v, ident, _depth + 1)) for k, v in o.items()), key=repr)))
+        items = [(fp(k, ident, _depth + 1), fp(v, ident, _depth + 1)) for k, v in o.items()]
+        try:
+            items.sort(key=lambda kv: kv[0])
+        except TypeError:
+            items.sort(key=repr)
+        return ('dict', tuple(items))
     if isinstance(o, list):
         return ('list', tuple(fp(x, ident, _depth + 1) for x in o))
     if isinstance(o, tuple):
@@ -120,6 +125,8 @@ def fp(o, ident=True, _depth=0):
         return ('set', tuple(sorted((fp(x, ident, _depth + 1) for x in o), key=repr)))
     if isinstance(o, np.ndarray):
         return ('array', type(o).__name__, o.shape, o.dtype.str, o.tobytes())
+    if hasattr(o, '_verif_inner'):
+        return fp(o._verif_inner, ident, _depth)
     if isinstance(o, ObjectWithSchema):
         state = tuple((k, fp(v, ident, _depth + 1)) for k, v in sorted(vars(o).items())
                       if k not in ('debuglog', 'comparer_utils'))
@@ -165,6 +172,13 @@ def settings_snapshot():
     snap['np.geterr'] = fp(np.geterr())
     snap['np.geterrcall'] = fp(np.geterrcall())
     return snap
+
+
+def describe_setting_change(a, b):
+    """what changed between two fingerprints of a process-wide table"""
+    if a is not None and b is not None and a[0] == 'dict' and b[0] == 'dict':
+        return describe_change(a, b)
+    return 'value changed'
 
 
 def diff_snap(a, b):
@@ -660,6 +674,7 @@ def sweep_combo(args):
             continue
         witnesses.append(history_witness(name, configured, debug, canon, T, hist, got, want, key))
     after_settings = settings_snapshot()
+    probes = probe_outcomes()       # perturb-then-probe: the sweep above was the perturbation
     for k in diff_snap(before_settings, after_settings):
         witnesses.append({'key': 'settings:%s/%s' % (name, k), 'kind': 'settings', 'grader': name, 'configured': configured,
                           'debug': debug, 'setting': k, 'what': 'process-wide setting %s changed during the sweep' % k})
@@ -725,6 +740,7 @@ def sweep_combo(args):
     mid = paths[len(paths) // 2]
     return {'name': name, 'configured': configured, 'debug': debug,
             'failing_paths': failing_paths[:8], 'n_failing': len(failing_paths), 'corr_errors': corr_errors,
+            'probes': probes,
             'departs': departs, 'shards': len(shards),
             'witnesses': witnesses, 'calls': calls, 'nodes': len(nodes),
             'histories': len(seqs), 'leaves': len(leaves), 'rechecked': recheck, 'clone_mismatch': clone_mismatch,
@@ -818,6 +834,55 @@ class ScopeWatch:
             setattr(mod, 'evaluator', orig)
 
 
+class WithAttempt:
+    """grader(expect, 'input@n') -> grader(expect, 'input', attempt=n); lets histories vary the attempt number"""
+
+    def __init__(self, grader):
+        self._verif_inner = grader
+        self.config = grader.config
+
+    def __getattr__(self, name):
+        if name.startswith('__') or name in ('_verif_inner', 'config'):
+            raise AttributeError(name)
+        return getattr(self._verif_inner, name)
+
+    def __call__(self, expect, student_input):
+        if isinstance(student_input, str) and '@' in student_input:
+            s, n = student_input.rsplit('@', 1)
+            return self._verif_inner(expect, s, attempt=int(n))
+        return self._verif_inner(expect, student_input)
+
+
+def author_objects(g, acc=None, _depth=0):
+    """objects the author handed to grader g that are not graders themselves: comparers, sampling sets, credit
+    schedules, arrays ... (found by walking the configuration, through subgraders too)"""
+    import numpy as np
+    from mitxgraders.baseclasses import ObjectWithSchema, AbstractGrader
+    acc = {} if acc is None else acc
+    g = getattr(g, '_verif_inner', g)
+
+    def walk(o, d):
+        if d > 10 or id(o) in acc:
+            return
+        if isinstance(o, AbstractGrader):
+            if o is not g:
+                acc[id(o)] = None           # visited marker; graders are compared elsewhere
+            walk(getattr(o, 'config', {}), d + 1)
+        elif isinstance(o, ObjectWithSchema):
+            acc[id(o)] = o
+            walk(getattr(o, 'config', {}), d + 1)
+        elif isinstance(o, np.ndarray):
+            acc[id(o)] = o
+        elif isinstance(o, dict):
+            for v in o.values():
+                walk(v, d + 1)
+        elif isinstance(o, (list, tuple, set, frozenset)):
+            for v in o:
+                walk(v, d + 1)
+    walk(g, 0)
+    return [o for o in acc.values() if o is not None]
+
+
 def world_factory(kind):
     """a function building a fresh set of graders sharing subgraders; returns dict name -> grader, and call menu"""
     from mitxgraders import (StringGrader, FormulaGrader, NumericalGrader, MatrixGrader, SingleListGrader, ListGrader,
@@ -891,7 +956,140 @@ def world_factory(kind):
         menu = {'fgd': ([None, '1', '2'], ['1', '2', '1+']), 'single_fd': ([None], ['1,2', '2,1', '1,3'])}
         return graders, menu
 
-    return {'shared': shared, 'matrices': matrices, 'debugsub': debugsub}[kind]
+    def authorobjs():
+        """graders whose answers / sampling / credit use stateful author objects, each shared by two graders"""
+        from mitxgraders import (LinearComparer, MatrixEntryComparer, EqualityComparer, DiscreteSet, DependentSampler,
+                                 RandomFunction, SpecificFunctions, LinearCredit, GeometricCredit, ReciprocalCredit,
+                                 RealVectors)
+        lin = LinearComparer(proportional=0.5, offset=0.25, linear=0.1)
+        mec = MatrixEntryComparer(entry_partial_credit='proportional')
+        eqc = EqualityComparer(transform=np.abs)
+        ri, ds = RealInterval([1, 3]), DiscreteSet((2, 3, 5))
+        dep = DependentSampler(depends=['x'], formula='x+1')
+        rf, spf, rv = RandomFunction(), SpecificFunctions([np.sin, np.cos]), RealVectors(shape=2)
+        lc = LinearCredit(decrease_credit_after=1, decrease_credit_steps=2, minimum_credit=0.5)
+        gc, rc = GeometricCredit(factor=0.5), ReciprocalCredit()
+        graders = {
+            'lin1': FormulaGrader(answers={'comparer': lin, 'comparer_params': ['x^2']}, variables=['x'], sample_from={'x': ri}),
+            'lin2': FormulaGrader(answers={'comparer': lin, 'comparer_params': ['3*x+y']}, variables=['x', 'y'],
+                                  sample_from={'x': ri, 'y': dep}),
+            'mec1': MatrixGrader(answers={'comparer': mec, 'comparer_params': ['[1,2,3]']}),
+            'mec2': MatrixGrader(answers={'comparer': mec, 'comparer_params': ['[x,2*x]']}, variables=['x'], sample_from={'x': ds}),
+            'eq1': FormulaGrader(answers={'comparer': eqc, 'comparer_params': ['x']}, variables=['x'], sample_from={'x': ri}),
+            'eq2': NumericalGrader(answers={'comparer': eqc, 'comparer_params': ['-3']}),
+            'fn1': FormulaGrader(answers='f(x)+g(x)', variables=['x'], user_functions={'f': rf, 'g': spf}, sample_from={'x': ds}),
+            'fn2': FormulaGrader(answers='f(2)', user_functions={'f': rf}),
+            'vec1': MatrixGrader(answers='2*v', variables=['v'], sample_from={'v': rv}),
+            'vec2': MatrixGrader(answers='v+[1,1]', variables=['v'], sample_from={'v': rv}),
+            'cr1': WithAttempt(StringGrader(answers='cat', attempt_based_credit=lc)),
+            'cr2': WithAttempt(FormulaGrader(answers='1', attempt_based_credit=lc, attempt_based_credit_msg=False)),
+            'cr3': WithAttempt(StringGrader(answers=({'expect': 'cat'}, {'expect': 'dog', 'grade_decimal': 0.5}),
+                                            attempt_based_credit=gc)),
+            'cr4': WithAttempt(NumericalGrader(answers='2', attempt_based_credit=gc)),
+            'cr5': WithAttempt(NumericalGrader(answers='2', attempt_based_credit=rc)),
+            'cr6': WithAttempt(StringGrader(answers='cat', attempt_based_credit=rc)),
+        }
+        menu = {
+            'lin1': ([None], ['x^2', '2*x^2', '0', '0*x', 'x^2+1', '3*x^2+2', 'x^']),
+            'lin2': ([None], ['3*x+y', '4*x+1', '2*(4*x+1)', '0', 'x-x', '4*x', 'y', '(']),
+            'mec1': ([None], ['[1,2,3]', '[1,2,4]', '[0,0,0]', '[1,2]', '0', '[1,2,']),
+            'mec2': ([None], ['[x,2*x]', '[x,x]', '[0,0]', 'x', '0*[x,x]']),
+            'eq1': ([None], ['x', '-x', '0', '2*x', 'x+']),
+            'eq2': ([None], ['3', '-3', '0', '3.5', '']),
+            'fn1': ([None], ['f(x)+g(x)', 'g(x)+f(x)', 'f(x)', '0', 'f(']),
+            'fn2': ([None], ['f(2)', 'f(1+1)', '0', 'f(3)']),
+            'vec1': ([None], ['2*v', 'v+v', '[0,0]', '0', 'v']),
+            'vec2': ([None], ['v+[1,1]', '[1,1]+v', 'v', '0*v']),
+            'cr1': ([None], ['cat@1', 'cat@2', 'cat@3', 'dog@2', 'cat@0', 'cat']),
+            'cr2': ([None], ['1@1', '1@2', '1@5', '2@2', '1+@2', '1']),
+            'cr3': ([None], ['cat@1', 'dog@1', 'cat@3', 'dog@3', '@2']),
+            'cr4': ([None], ['2@1', '2@2', '2@4', '3@2']),
+            'cr5': ([None], ['2@1', '2@3', '0@2']),
+            'cr6': ([None], ['cat@1', 'cat@4', '@1']),
+        }
+        return graders, menu
+
+    def options():
+        """rarely used options next to plain graders of the same family"""
+        graders = {
+            'f_plain': FormulaGrader(answers='2000'),
+            'n_plain': NumericalGrader(answers='2000'),
+            'm_plain': MatrixGrader(answers='[2000,1]'),
+            'f_metric': FormulaGrader(answers='2000', metric_suffixes=True),
+            'n_metric': NumericalGrader(answers='2k', metric_suffixes=True),
+            'f_inf': FormulaGrader(answers='infty', allow_inf=True),
+            'f_lists': FormulaGrader(answers='sin(x)+a_{1}', variables=['x'], numbered_vars=['a'], whitelist=['sin', 'cos'],
+                                     forbidden_strings=['cos'], required_functions=['sin'], tolerance='1%', samples=4,
+                                     failable_evals=1),
+            'f_black': FormulaGrader(answers='x+c', variables=['x'], instructor_vars=['c'], user_constants={'c': 2, 'pi': None},
+                                     blacklist=['tan'], suppress_warnings=True),
+            'f_over': FormulaGrader(answers='e+1', user_constants={'e': 5}, user_functions={'sin': np.cos},
+                                    suppress_warnings=True),
+            's_opts': StringGrader(answers='Cat  Dog', case_sensitive=False, clean_spaces=False, strip=False, wrong_msg='no'),
+            's_any': StringGrader(accept_any=True, min_length=3, min_words=2, explain_minimums='msg'),
+            's_all': StringGrader(answers='catdog', strip_all=True, validation_pattern='[a-z ]+', invalid_msg='letters only'),
+            's_plain': StringGrader(answers='Cat  Dog'),
+            'sl_opts': SingleListGrader(answers=['a', 'b', 'c'], subgrader=StringGrader(), ordered=True, length_error=True,
+                                        partial_credit=False, delimiter=';'),
+            'sl_miss': SingleListGrader(answers=['a', ''], subgrader=StringGrader(), missing_error=False),
+            'sl_nest': SingleListGrader(answers=[['a', 'b'], ['c', 'd']], delimiter=';',
+                                        subgrader=SingleListGrader(subgrader=StringGrader())),
+            'l_group': ListGrader(answers=[['1', '2'], ['3', '4']], grouping=[1, 1, 2, 2],
+                                  subgraders=ListGrader(subgraders=NumericalGrader()), partial_credit=False),
+            'iv_opts': IntervalGrader(answers='<1,2}', opening_brackets='<[', closing_brackets='}]', delimiter=',',
+                                      partial_credit=False),
+            'm_opts': MatrixGrader(answers='I*[1,2]', identity_dim=2, shape_errors=False, suppress_matrix_messages=False,
+                                   answer_shape_mismatch={'is_raised': False, 'msg_detail': None}),
+        }
+        menu = {
+            'f_plain': ([None], ['2000', '2k', '2*k', 'infty', 'sin(0)+2000', 'pi-pi+2000', 'e-e+2000', '2000%*100']),
+            'n_plain': ([None], ['2000', '2k', '2e3', 'infty']),
+            'm_plain': ([None], ['[2000,1]', '[2k,1]', '[2000,1]*I', '[2000,1']),
+            'f_metric': ([None], ['2k', '2000', '2m*1000000', '2*k']),
+            'n_metric': ([None], ['2k', '2000', '2M']),
+            'f_inf': ([None], ['infty', '2*infty', '1']),
+            'f_lists': ([None], ['sin(x)+a_{1}', 'a_{1}+sin(x)', 'sin(x)+a_{2}', 'cos(x)', 'tan(x)', 'x']),
+            'f_black': ([None], ['x+c', 'x+2', 'x+pi', 'tan(x)']),
+            'f_over': ([None], ['e+1', '6', 'sin(0)+5', 'cos(0)+5']),
+            's_opts': ([None], ['cat  dog', 'Cat  Dog', 'cat dog', ' cat  dog']),
+            's_any': ([None, 'x'], ['a b c', 'ab', 'abc', '']),
+            's_all': ([None], ['cat dog', 'catdog', 'cat1', 'c a t d o g']),
+            's_plain': ([None], ['Cat  Dog', 'cat  dog', 'Cat Dog']),
+            'sl_opts': ([None], ['a;b;c', 'a;c;b', 'a;b', 'a;;c']),
+            'sl_miss': ([None], ['a,', ',a', 'a,b', 'a']),
+            'sl_nest': ([None], ['a,b;c,d', 'c,d;a,b', 'a,b;c', 'a;b']),
+            'l_group': ([None], [['1', '2', '3', '4'], ['3', '4', '1', '2'], ['1', '2', '3', '5'], ['1', '2', '3']]),
+            'iv_opts': ([None], ['<1,2}', '[1,2}', '<1,2]', '(1,2)', '<1}']),
+            'm_opts': ([None], ['[1,2]', 'I*[1,2]', '[1,2,3]', '1']),
+        }
+        return graders, menu
+
+    def plain():
+        """every grader class with default options only (probed before anything else is constructed)"""
+        graders = {
+            'f': FormulaGrader(answers='2000'), 'n': NumericalGrader(answers='2000'), 'm': MatrixGrader(answers='[2000,1]'),
+            's': StringGrader(answers='Cat  Dog'), 'sl': SingleListGrader(answers=['a', 'b'], subgrader=StringGrader()),
+            'l': ListGrader(answers=['1', '2'], subgraders=NumericalGrader()), 'iv': IntervalGrader(answers='[1,2)'),
+            'fx': FormulaGrader(answers='x*sin(x)+e^x', variables=['x']),
+            'inf_f': FormulaGrader(), 'inf_s': StringGrader(),
+        }
+        menu = {
+            'f': ([None], ['2000', '2k', '2M/1000', '2000%*100', 'infty', 'pi-pi+2000', 'e-e+2000', 'i*i+2001', 'sin(0)+2e3',
+                           'fact(3)+1994', 'I', 'k']),
+            'n': ([None], ['2000', '2k', '20c*10000', 'infty', '2e3']),
+            'm': ([None], ['[2000,1]', '[2k,1]', '[2000,1]*I', 'trans([2000,1])', '[[1,0],[0,1]]^-1*[2000,1]']),
+            's': ([None], ['Cat  Dog', 'cat dog', ' Cat Dog ', '']),
+            'sl': ([None], ['a,b', 'b, a', 'a', 'a,,b']),
+            'l': ([None], [['1', '2'], ['2', '1'], ['1', '3'], ['1']]),
+            'iv': ([None], ['[1,2)', '(1,2)', '[1,3)', '{1,2}', '[1,2']),
+            'fx': ([None], ['x*sin(x)+e^x', 'sin(x)*x+exp(x)', 'x', 'y', 'x*sin(x)+e^x+1m']),
+            'inf_f': (['1+2'], ['3', '3k', '4']),
+            'inf_s': (['cat'], ['cat', 'Cat', 'dog']),
+        }
+        return graders, menu
+
+    return {'shared': shared, 'matrices': matrices, 'debugsub': debugsub, 'authorobjs': authorobjs, 'options': options,
+            'plain': plain}[kind]
 
 
 INFERRED_LINE = re.compile(r'Expect value inferred to be .*?<br/>\\n')
@@ -915,7 +1113,7 @@ def canon_any(status, value):
 
 def expect_stage(kind, name, expect):
     """which validation stage of a fresh grader of that world rejects this expect value ('valid' if none)"""
-    graders, _ = world_factory(kind)()
+    graders = fresh_world(kind)
     g = graders[name]
     if not hasattr(g, 'infer_from_expect') or g.config['answers']:
         return 'ignored'
@@ -956,12 +1154,39 @@ def mixed_reference(kind, name, last, e, s):
     return _MIXED_REF[key]
 
 
+_PRISTINE_WORLD = {}
+
+
+def fresh_world(kind):
+    """a set of graders nobody has called: built once per process, handed out as deep copies (sharing inside the
+    world is preserved by the copy); falls back to building when copying fails"""
+    if kind not in _PRISTINE_WORLD:
+        _PRISTINE_WORLD[kind] = world_factory(kind)()[0]
+    try:
+        return copy.deepcopy(_PRISTINE_WORLD[kind])
+    except Exception:       # noqa
+        return world_factory(kind)()[0]
+
+
+_COPY_CHECKS = {}
+COPY_UNFAITHFUL = set()
+
+
 def _mixed_reference(kind, name, last, e, s):
-    graders, _ = world_factory(kind)()
-    g = graders[name]
     eff = e if e is not None else last
-    st, v = core.guarded(g, eff, s)
-    return canon_any(st, v)
+    if kind in COPY_UNFAITHFUL:
+        st, v = core.guarded(world_factory(kind)()[0][name], eff, s)
+        return canon_any(st, v)
+    st, v = core.guarded(fresh_world(kind)[name], eff, s)
+    out = canon_any(st, v)
+    if _COPY_CHECKS.get(kind, 0) < 12:
+        # copies are a shortcut: the first references of every world are recomputed on constructed graders
+        _COPY_CHECKS[kind] = _COPY_CHECKS.get(kind, 0) + 1
+        st2, v2 = core.guarded(world_factory(kind)()[0][name], eff, s)
+        if canon_any(st2, v2) != out:
+            COPY_UNFAITHFUL.add(kind)
+            return canon_any(st2, v2)
+    return out
 
 
 def mixed_violation(kind, calls):
@@ -980,6 +1205,10 @@ def mixed_violation(kind, calls):
 
 
 MIXED_CORPUS = [
+    ('authorobjs', [('lin1', None, '0'), ('lin1', None, '2*x^2')]),
+    ('authorobjs', [('lin1', None, '0*x'), ('lin2', None, '2*(4*x+1)')]),
+    ('authorobjs', [('mec1', None, '[0,0,0]'), ('mec2', None, '[x,x]')]),
+    ('options', [('f_metric', None, '2k'), ('f_plain', None, '2k')]),
     ('shared', [('list_d', None, ['cat', 'dog']), ('list_d', None, ['dog', 'cat'])]),
     ('matrices', [('m_wipe', None, 'wipe(A)'), ('m_wipe', None, 'A')]),
     ('debugsub', [('fgd', '1', '1'), ('single_fd', None, '1,2')]),
@@ -989,8 +1218,8 @@ MIXED_CORPUS = [
 
 def random_mixed(ctx, res, rng):
     from mitxgraders.helpers.calc.math_array import MathArray
-    n_hist = {'shared': 40, 'matrices': 40, 'debugsub': 4} if ctx['tier'] == 'quick' else \
-        {'shared': 500, 'matrices': 500, 'debugsub': 30}
+    n_hist = {'shared': 40, 'matrices': 40, 'debugsub': 4, 'authorobjs': 40, 'options': 20} if ctx['tier'] == 'quick' else \
+        {'shared': 500, 'matrices': 500, 'debugsub': 30, 'authorobjs': 600, 'options': 300}
     total_calls = 0
     valid_cache = {}
     # corpus: minimised histories found earlier run first, on every run
@@ -1006,18 +1235,23 @@ def random_mixed(ctx, res, rng):
     with ScopeWatch() as watch:
         for kind, count in n_hist.items():
             for _ in range(count):
+                before_settings = settings_snapshot()
                 graders, menu = world_factory(kind)()
                 names = sorted(graders)
-                before_settings = settings_snapshot()
                 calls = []
                 last = {}
+                snap = None
                 n_calls = rng.randint(3, 14)
                 for i in range(n_calls):
                     n = rng.choice(names)
                     exps, inps = menu[n]
                     e = rng.choice(exps) if rng.random() < 0.6 else None
                     s = rng.choice(inps)
-                    others_before = {m: fp(g) for m, g in graders.items() if m != n and not shares(graders, n, m)}
+                    if snap is None:
+                        snap = {m: fp(g) for m, g in graders.items()}
+                    others_before = {m: snap[m] for m in graders if m != n and not shares(graders, n, m)}
+                    authors = author_objects(graders[n])
+                    authors_before = [fp(o) for o in authors]
                     st, v = core.guarded(graders[n], e, s)
                     total_calls += 1
                     res.oracle_evals += 1
@@ -1033,10 +1267,17 @@ def random_mixed(ctx, res, rng):
                     if not MathArray._negative_powers:
                         bad = 'MathArray._negative_powers is left False after the call'
                         MathArray._negative_powers = MathArray._default_negative_powers
-                    others_after = {m: fp(g) for m, g in graders.items() if m in others_before}
+                    snap = {m: fp(g) for m, g in graders.items()}
+                    others_after = {m: snap[m] for m in others_before}
                     ch = [m for m in others_before if others_before[m] != others_after[m]]
                     if ch and bad is None:
-                        bad = 'calling %s changed the state of unrelated grader(s) %s' % (n, ch)
+                        bad = 'calling %s changed the state of other grader(s) %s' % (n, ch)
+                    if bad is None:
+                        for o, b in zip(authors, authors_before):
+                            if fp(o) != b:
+                                bad = ('calling %s altered an object the author supplied in its configuration: %s'
+                                       % (n, describe_object_change(o, b)))
+                                break
                     if bad:
                         hist = list(calls)
                         if 'freshly built' in bad:
@@ -1072,7 +1313,70 @@ def random_mixed(ctx, res, rng):
                                   'what': 'evaluator call changed the %s scope it was handed' % '/'.join(h['changed'])})
         res.distribution['evaluator_calls_watched'] = watch.calls
     res.distribution['mixed_histories'] = dict(n_hist)
+    if COPY_UNFAITHFUL:
+        res.notes.append('reference graders of worlds %s were constructed, not copied (a copy answered differently)'
+                         % sorted(COPY_UNFAITHFUL))
     res.distribution['mixed_calls'] = total_calls
+
+
+def describe_object_change(o, before):
+    """which attributes of an author object differ from the earlier fingerprint"""
+    now = fp(o)
+    if now[0] == 'obj' and before[0] == 'obj':
+        a, b = dict(before[3]), dict(now[3])
+        ch = sorted(k for k in set(a) | set(b) if a.get(k) != b.get(k))
+        return '%s: attribute(s) %s changed' % (now[1], ch)
+    return '%s changed' % (now[1] if len(now) > 1 else now[0],)
+
+
+PROBE_WORLDS = ('plain', 'options', 'authorobjs', 'shared', 'matrices', 'plain')
+
+
+def probe_outcomes():
+    """a fixed set of probe calls: every grader of the mixed worlds on every input of its menu, from freshly built
+    worlds, with the global RNGs seeded so that the sampled values are the same wherever the probes run"""
+    import random as _random
+    import numpy as np
+    st_py, st_np = _random.getstate(), np.random.get_state()
+    out = {}
+    try:
+        for pos, kind in enumerate(PROBE_WORLDS):
+            _random.seed(12345)
+            np.random.seed(12345)
+            graders, menu = world_factory(kind)()
+            for n in sorted(graders):
+                exps, inps = menu[n]
+                e = next((x for x in exps if x is not None), None) if hasattr(graders[n], 'infer_from_expect') \
+                    and not graders[n].config.get('answers') else None
+                for s in inps:
+                    st, v = core.guarded(graders[n], e, s)
+                    out['%d:%s/%s(%r, %r)' % (pos, kind, n, e, s)] = list(canon_any(st, v))
+    finally:
+        _random.setstate(st_py)
+        np.random.set_state(st_np)
+    return out
+
+
+def start_fresh_probe():
+    """the same probes in a FRESH interpreter (nothing has been graded there)"""
+    import subprocess
+    import sys
+    code = ('import sys, json; sys.path[:0] = [%r, %r]; from harness.props import c11; '
+            'sys.stdout.write("@@PROBE" + json.dumps(c11.probe_outcomes()))' % (core.REPO, core.VERIF))
+    env = dict(os.environ, PYTHONHASHSEED='0', PYTHONDONTWRITEBYTECODE='1')
+    return subprocess.Popen([sys.executable, '-B', '-c', code], stdout=subprocess.PIPE, stderr=subprocess.PIPE, env=env, text=True)
+
+
+def compare_probes(res, fresh, here, where):
+    n = 0
+    for k in sorted(fresh):
+        if k in here and here[k] != fresh[k] and 'timeout' not in (here[k][0], fresh[k][0]):
+            n += 1
+            if n <= 4:
+                res.witnesses.append({'key': 'probe:%s' % k, 'kind': 'probe', 'probe': k, 'where': where,
+                                      'what': 'probe %s returns %s after %s, but %s in a fresh interpreter'
+                                              % (k, repr(here[k])[:200], where, repr(fresh[k])[:200])})
+    return n
 
 
 def shares(graders, a, b):
@@ -1134,6 +1438,39 @@ def construction_cases():
     add('IntervalGrader/list-answer', IntervalGrader,
         lambda: {'answers': [('[', {'expect': '(', 'grade_decimal': 0.5}), '1', '2', ')'], 'subgrader': FormulaGrader()},
         [(None, '[1,2)'), (None, '(1,2)')])
+    add('FormulaGrader/metric-suffixes', FormulaGrader, lambda: {'answers': '2k', 'metric_suffixes': True},
+        [(None, '2000'), (None, '2k'), (None, '2M')])
+    add('NumericalGrader/metric-suffixes', NumericalGrader, lambda: {'answers': '1m', 'metric_suffixes': True, 'tolerance': '1%'},
+        [(None, '0.001'), (None, '1m')])
+    add('FormulaGrader/lists-and-restrictions', FormulaGrader,
+        lambda: {'answers': 'sin(x)+a_{1}', 'variables': ['x'], 'numbered_vars': ['a'], 'whitelist': ['sin', 'cos'],
+                 'forbidden_strings': ['cos'], 'required_functions': ['sin'], 'tolerance': '1%', 'samples': 4, 'failable_evals': 1,
+                 'instructor_vars': ['x'], 'sample_from': {'x': [1, 2], 'a': (1, 2, 3)}},
+        [(None, 'sin(x)+a_{1}'), (None, 'cos(x)'), (None, 'tan(x)')])
+    add('FormulaGrader/overrides', FormulaGrader,
+        lambda: {'answers': 'e+1', 'user_constants': {'e': 5}, 'user_functions': {'sin': np.cos, 'h': [np.sin, np.cos]},
+                 'suppress_warnings': True, 'blacklist': ['tan']}, [(None, '6'), (None, 'sin(0)+5'), (None, 'tan(1)')])
+    add('StringGrader/options', StringGrader,
+        lambda: {'answers': ('Cat  Dog', {'expect': 'x', 'grade_decimal': 0.5, 'msg': 'half'}), 'case_sensitive': False,
+                 'clean_spaces': False, 'strip': False, 'wrong_msg': 'no', 'validation_pattern': '[A-Za-z ]+',
+                 'explain_validation': 'msg', 'invalid_msg': 'letters'}, [(None, 'cat  dog'), (None, 'x'), (None, '12')])
+    add('StringGrader/accept-any', StringGrader,
+        lambda: {'accept_any': True, 'min_length': 3, 'min_words': 2, 'explain_minimums': 'msg'}, [(None, 'a b c'), (None, 'ab')])
+    add('SingleListGrader/options', SingleListGrader,
+        lambda: {'answers': ['a', 'b', 'c'], 'subgrader': StringGrader(), 'ordered': True, 'length_error': True,
+                 'partial_credit': False, 'delimiter': ';', 'missing_error': False}, [(None, 'a;b;c'), (None, 'a;c;b'), (None, 'a;b')])
+    add('SingleListGrader/nested', SingleListGrader,
+        lambda: {'answers': [['a', 'b'], ['c', 'd']], 'delimiter': ';', 'subgrader': SingleListGrader(subgrader=StringGrader())},
+        [(None, 'a,b;c,d'), (None, 'a;b')])
+    add('ListGrader/grouping', ListGrader,
+        lambda: {'answers': [['1', '2'], ['3', '4']], 'grouping': [1, 1, 2, 2], 'subgraders': ListGrader(subgraders=NumericalGrader()),
+                 'partial_credit': False}, [(None, ['1', '2', '3', '4']), (None, ['1', '2', '3', '5'])])
+    add('IntervalGrader/brackets', IntervalGrader,
+        lambda: {'answers': '<1,2}', 'opening_brackets': '<[', 'closing_brackets': '}]', 'partial_credit': False},
+        [(None, '<1,2}'), (None, '[1,2}'), (None, '(1,2)')])
+    add('MatrixGrader/quiet', MatrixGrader,
+        lambda: {'answers': '[1,2]', 'shape_errors': False, 'suppress_matrix_messages': True, 'max_array_dim': 2,
+                 'answer_shape_mismatch': {'is_raised': False, 'msg_detail': None}}, [(None, '[1,2]'), (None, '[1,2,3]'), (None, '1')])
     add('IntervalGrader/inferred', IntervalGrader, lambda: {'partial_credit': False}, [('[1,2]', '[1,2]'), (None, '[1,3]')])
     return cases
 
@@ -1178,9 +1515,11 @@ def construction_checks(ctx, res):
                             what = 'a second grader built from the same dictionary returns %s, an independent one %s' % (
                                 repr(canon_any(st4, v4))[:150], repr(canon_any(st5, v5))[:150])
                             break
-            d = diff_snap(before_settings, settings_snapshot())
+            after_settings = settings_snapshot()
+            d = diff_snap(before_settings, after_settings)
             if d and what is None:
-                what = 'process-wide settings changed: %s' % d
+                what = 'process-wide settings changed: %s' % ', '.join(
+                    '%s (%s)' % (k, describe_setting_change(before_settings.get(k), after_settings.get(k))) for k in d)
             if 'MathArray._negative_powers' in d:
                 from mitxgraders.helpers.calc.math_array import MathArray
                 MathArray._negative_powers = MathArray._default_negative_powers
@@ -1284,10 +1623,28 @@ def run(ctx):
                 'tree node (= one call after one history); a node is non-trivial when its history has at least two calls of '
                 'which at least one returns a grade. mixed: random interleavings over graders sharing subgraders / matrix '
                 'graders with negative powers off and on; construction: distinct (case, mode).')
+    fresh_proc = start_fresh_probe()
+    baseline = settings_snapshot()
     jobs = [(n, c, d, ctx['tier'], bool(ctx['escalate']), seed) for (n, c, d) in combos()]
     t0 = time.time()
     with multiprocessing.get_context('fork').Pool(min(core.NPROC, len(jobs))) as pool:
-        results = pool.map(sweep_combo, jobs, chunksize=1)
+        pending = pool.map_async(sweep_combo, jobs, chunksize=1)
+        # while the workers sweep: corpus, construction and mixed-grader batches in this process, then its probes
+        t2 = time.time()
+        history_corpus(res)
+        construction_checks(ctx, res)
+        res.distribution['construction_wall_s'] = round(time.time() - t2, 1)
+        t3 = time.time()
+        random_mixed(ctx, res, rng)
+        res.distribution['mixed_wall_s'] = round(time.time() - t3, 1)
+        main_nontrivial = len(res.nontrivial)
+        end_settings = settings_snapshot()
+        for k in diff_snap(baseline, end_settings):
+            res.witnesses.append({'key': 'settings:run/%s' % k, 'kind': 'settings', 'setting': k,
+                                  'what': 'process-wide setting %s is not what it was before this run constructed and called '
+                                          'graders: %s' % (k, describe_setting_change(baseline.get(k), end_settings.get(k)))})
+        main_probes = probe_outcomes()
+        results = pending.get()
     sweep_s = time.time() - t0
     sweep_nontrivial = 0
     departs = 0
@@ -1325,14 +1682,22 @@ def run(ctx):
     res.samples.append({'grader': smp['name'], 'configured': smp['configured'], 'debug': smp['debug'], 'history': smp['sample']})
     res.distribution['nodes_where_the_regenerated_program_departs_from_the_property'] = departs
     res.exhaustive = True
-    t2 = time.time()
-    history_corpus(res)
-    construction_checks(ctx, res)
-    res.distribution['construction_wall_s'] = round(time.time() - t2, 1)
-    t3 = time.time()
-    random_mixed(ctx, res, rng)
-    res.distribution['mixed_wall_s'] = round(time.time() - t3, 1)
-    res.nontrivial = sweep_nontrivial + len(res.nontrivial)
+    # perturb-then-probe: the probes after everything this process and the sweep workers have done, against the
+    # same probes in an interpreter that has graded nothing
+    t4 = time.time()
+    out, err = fresh_proc.communicate(timeout=600)
+    if '@@PROBE' not in out:
+        res.corr_errors.append(('fresh-interpreter probes', (out + err)[-1500:]))
+    else:
+        fresh = json.loads(out.split('@@PROBE', 1)[1])
+        differing = compare_probes(res, fresh, main_probes, 'the construction and mixed-grader batches of this run')
+        for r in results:
+            differing += compare_probes(res, fresh, r['probes'], 'the %s sweep (%s, %s)' % (
+                r['name'], 'configured' if r['configured'] else 'inferring', 'debug' if r['debug'] else 'no debug'))
+        res.oracle_evals += len(fresh) * (1 + len(results))
+        res.distribution['probes'] = {'probe_calls': len(fresh), 'batches_probed': 1 + len(results), 'differing': differing}
+    res.distribution['probe_wall_s'] = round(time.time() - t4, 1)
+    res.nontrivial = sweep_nontrivial + main_nontrivial
     by = {}
     for w in res.witnesses:
         by[w.get('kind', '?')] = by.get(w.get('kind', '?'), 0) + 1
@@ -1377,6 +1742,17 @@ def replay(w):
         construction_checks({'tier': 'quick'}, res)
         hit = [x for x in res.witnesses if x['key'] == w['key']]
         return bool(hit), (hit[0]['what'] if hit else 'construction case %s is clean on the current tree' % w['key'])
+    if kind == 'probe':
+        res = core.Result()
+        proc = start_fresh_probe()
+        construction_checks({'tier': 'quick'}, res)
+        random_mixed({'tier': 'quick'}, res, random.Random(11))
+        out, err = proc.communicate(timeout=600)
+        fresh = json.loads(out.split('@@PROBE', 1)[1])
+        here = probe_outcomes()
+        k = w['probe']
+        return here.get(k) != fresh.get(k), 'probe %s: after a perturbing batch %r, in a fresh interpreter %r' % (
+            k, here.get(k), fresh.get(k))
     if kind in ('settings', 'scope', 'defaults'):
         res = core.Result()
         construction_checks({'tier': 'quick'}, res)
